@@ -223,4 +223,83 @@ where
       injection hh with _ b
       exact ⟨b, by omega⟩
 
+/-- **the root determines the whole path**: two climbs with the same index and duplicate markers,
+    paths of the same length and the same result started from the same hash along the same path. -/
+theorem calcGo_root_determines_path (fuel : Nat) (i : Nat) (layer : Nat) (h h' : H) (path path' : List H)
+    (dups : List Nat) (r : H) (hlen : path.length = path'.length) (hf : path.length + dups.length < fuel)
+    (h1 : calcGo fuel (some i) layer h path dups = some r) (h2 : calcGo fuel (some i) layer h' path' dups = some r) :
+    h = h' ∧ path = path' := by
+  induction fuel generalizing i layer h h' path path' dups with
+  | zero => omega
+  | succ fuel ih =>
+    rw [calcGo_succ] at h1 h2
+    unfold calcStep at h1 h2
+    cases dups with
+    | cons d drest =>
+      simp only at h1 h2
+      by_cases hl : layer = d
+      · simp only [hl, ↓reduceIte] at h1 h2
+        by_cases li : isLeftOf (some i) = false
+        · simp [li] at h1
+        · simp only [li, ↓reduceIte, nextOf] at h1 h2
+          obtain ⟨hh, hp⟩ := ih _ _ _ _ _ _ _ hlen (by simp only [List.length_cons] at hf; omega) h1 h2
+          injection hh with hh _
+          exact ⟨hh, hp⟩
+      · simp only [hl, ↓reduceIte] at h1 h2
+        cases path with
+        | nil =>
+          cases path' with
+          | nil =>
+            simp only [Option.some.injEq] at h1 h2
+            subst h1; exact ⟨h2.symm, rfl⟩
+          | cons _ _ => simp at hlen
+        | cons o prest =>
+          cases path' with
+          | nil => simp at hlen
+          | cons o' prest' =>
+            simp only at h1 h2
+            by_cases c1 : isLeftOf (some i) = false ∧ o = h
+            · simp [c1] at h1
+            · by_cases c2 : isLeftOf (some i) = false ∧ o' = h'
+              · simp [c2] at h2
+              · simp only [c1, c2, ↓reduceIte, nextOf] at h1 h2
+                obtain ⟨hh, hp⟩ := ih _ _ _ _ _ _ _ (by simpa using hlen)
+                  (by simp only [List.length_cons] at hf ⊢; omega) h1 h2
+                subst hp
+                by_cases bl : isLeftOf (some i) = true
+                · simp only [bl, ↓reduceIte] at hh
+                  injection hh with a b
+                  exact ⟨a, by rw [b]⟩
+                · simp only [bl, Bool.false_eq_true, ↓reduceIte] at hh
+                  injection hh with a b
+                  exact ⟨b, by rw [a]⟩
+    | nil =>
+      cases path with
+      | nil =>
+        cases path' with
+        | nil =>
+          simp only [Option.some.injEq] at h1 h2
+          subst h1; exact ⟨h2.symm, rfl⟩
+        | cons _ _ => simp at hlen
+      | cons o prest =>
+        cases path' with
+        | nil => simp at hlen
+        | cons o' prest' =>
+          simp only at h1 h2
+          by_cases c1 : isLeftOf (some i) = false ∧ o = h
+          · simp [c1] at h1
+          · by_cases c2 : isLeftOf (some i) = false ∧ o' = h'
+            · simp [c2] at h2
+            · simp only [c1, c2, ↓reduceIte, nextOf] at h1 h2
+              obtain ⟨hh, hp⟩ := ih _ _ _ _ _ _ _ (by simpa using hlen)
+                (by simp only [List.length_cons, List.length_nil] at hf ⊢; omega) h1 h2
+              subst hp
+              by_cases bl : isLeftOf (some i) = true
+              · simp only [bl, ↓reduceIte] at hh
+                injection hh with a b
+                exact ⟨a, by rw [b]⟩
+              · simp only [bl, Bool.false_eq_true, ↓reduceIte] at hh
+                injection hh with a b
+                exact ⟨b, by rw [a]⟩
+
 end BRV.Merkle
